@@ -33,6 +33,24 @@ def run(facts, chk, tier, only=None):
     chk.guard('C07.cli', 'C07.cli:run0', lambda: cli_e2e.check_merge_delete(facts, chk, 'C07.cli', tier, 'merge'))
     from . import e2e2
     chk.guard('C07.e2e', 'C07.e2e:run', lambda: e2e2.check_merge_e2e(facts, chk, 'C07.e2e', tier))
+    def bridge():
+        from ..facts import _strip_generics
+        out = []
+        for b in facts.bodies.values():
+            if b.kind == 'Promoted':
+                continue
+            for bb, t in b.calls():
+                if (t.callee.name or '').endswith('par_bridge'):
+                    own = _strip_generics(b.parent) if b.kind == 'Closure' else b.name
+                    if not own.startswith('skalo::'):
+                        out.append((own, t.span))
+        return out
+    r = chk.guard('C07.order', 'C07.order:par_bridge', bridge)
+    if r is not None:
+        if r:
+            chk.violation('C07.order', 'C07.order:par_bridge', where=r[0][1], detail='inputs are traversed through an unordered parallel bridge (par_bridge) in %s: samples need not come out in argument order (the sequential model of rayon used by the functional rules cannot see this)' % r[0][0])
+        else:
+            chk.ok('C07.order', 'C07.order:par_bridge', 'crate', 'no unordered parallel bridge outside skalo', nontrivial=False)
     chk.guard('C07.e2e', 'C07.e2e:run-empty', lambda: e2e2.check_merge_empty(facts, chk, 'C07.e2e', tier))
     kf = facts.field_index(MSD, 'k')
     rf = facts.field_index(MSD, 'rc')
